@@ -93,8 +93,8 @@ def worker(arg):
 
 def check(tier, seed):
     t = pc.trees("plain", "san")
-    n = 1600 if tier == "quick" else 40000
-    nsan = 96 if tier == "quick" else 3000
+    n = 1600 if tier == "quick" else 12000
+    nsan = 96 if tier == "quick" else 600
     res = Result("exploration")
     res.rule = RULE + " Most cases run on the -O1 tree with assertions (+_GLIBCXX_ASSERTIONS), a subset on the ASan+UBSan tree."
     base = seed * 1000000
